@@ -107,6 +107,8 @@ pub struct Outcome {
     pub extra: BTreeMap<String, serde_json::Value>,
     pub fallback_sample: Option<String>,
     pub is_replay: bool,
+    /// non-trivial cases that are distinct by construction (exhaustive enumerations), counted exactly
+    pub counted_nontrivial: u64,
 }
 
 #[derive(Debug, Clone)]
@@ -120,6 +122,7 @@ pub struct Violation {
 impl Outcome {
     pub fn merge(&mut self, o: Outcome) {
         self.evaluations += o.evaluations;
+        self.counted_nontrivial += o.counted_nontrivial;
         self.sub_evaluations += o.sub_evaluations;
         self.nontrivial.extend(o.nontrivial);
         for s in o.samples {
@@ -390,7 +393,7 @@ pub fn write_evidence(rep: &Report, o: &Outcome) {
     cov.insert("evaluations".into(), (o.evaluations.max(o.sub_evaluations)).into());
     cov.insert("cases".into(), o.evaluations.into());
     cov.insert("sub_evaluations".into(), o.sub_evaluations.into());
-    cov.insert("distinct_nontrivial".into(), (o.nontrivial.len() as u64).into());
+    cov.insert("distinct_nontrivial".into(), (o.nontrivial.len() as u64 + o.counted_nontrivial).into());
     cov.insert("rule".into(), rep.rule.into());
     let mut samples = o.samples.clone();
     if samples.is_empty() {
@@ -447,7 +450,7 @@ pub fn conclude(id: &str, o: &Outcome) -> i32 {
         println!(
             "OK property={id} evaluations={} distinct_nontrivial={}",
             o.evaluations.max(o.sub_evaluations),
-            o.nontrivial.len()
+            o.nontrivial.len() as u64 + o.counted_nontrivial
         );
     }
     0
